@@ -131,7 +131,9 @@ class P:
             if m.startswith("err:syntax"):
                 return i.startswith("err:")
             if m.startswith("err:"):
-                return i.startswith("err:") and i.split(" S=")[1] == m.split(" S=")[1]
+                # a fault of the evaluation (invalid number, lvalue, division by zero, shift) is not reported as a syntax error of a
+                # well-formed expression; which of two faults is named is the implementation's (the repository's tests pin the last one)
+                return i.startswith("err:") and not i.startswith("err:syntax") and i.split(" S=")[1] == m.split(" S=")[1]
             return i == m
 
         def ucmp(c, i, m):
@@ -166,7 +168,7 @@ class P:
         if m.startswith("err:syntax"):
             return i.startswith("err:")
         if m.startswith("err:"):
-            return i.startswith("err:") and i.split(" S=")[1] == m.split(" S=")[1]
+            return i.startswith("err:") and not i.startswith("err:syntax") and i.split(" S=")[1] == m.split(" S=")[1]
         return i == m
 
     def replay(self, payload, C):
